@@ -1,7 +1,7 @@
 (* Properties/C15.v — equivalent spellings of a document give identical results. *)
 From Coq Require Import List Ascii String.
 From GT Require Import Base.GoStr Md.Parser Tree.Tree Tree.Gen Tree.Grower Api.Simple Fs.FsModel Api.Programmable
-  Proofs.GenItems Proofs.Programmable.
+  Spec.Spelling Proofs.GenItems Proofs.Programmable Proofs.SpelledTop.
 Import ListNotations.
 
 (* Any two documents whose rows the line parser reads as the pre-order items of the same
@@ -17,6 +17,17 @@ Theorem C15_spelling_items : forall f input1 rows1 st1 input2 rows2 st2,
   (forall w c s d, pstep w (PMdVerify c s d input1) = pstep w (PMdVerify c s d input2)).
 Proof. exact same_items_same_results. Qed.
 Print Assumptions C15_spelling_items.
+
+(* THE PROPERTY AT FULL STRENGTH: any two spellings of the same forest from the notation
+   family (see Properties/C01.v and Spec/Spelling.v) give identical results in every output
+   mode and option set, the same walk, the same mkdir effect and report, the same verdict *)
+Theorem C15_spelling : forall sp1 sp2 f, spells sp1 f -> spells sp2 f ->
+  (forall c, output_md c (bytes_of sp1) = output_md c (bytes_of sp2)) /\
+  (forall c cb, walk_md c cb (bytes_of sp1) = walk_md c cb (bytes_of sp2)) /\
+  (forall w c d, pstep w (PMdMkdir c d (bytes_of sp1)) = pstep w (PMdMkdir c d (bytes_of sp2))) /\
+  (forall w c s d, pstep w (PMdVerify c s d (bytes_of sp1)) = pstep w (PMdVerify c s d (bytes_of sp2))).
+Proof. exact spelling_independent. Qed.
+Print Assumptions C15_spelling.
 
 Definition s (x : string) : str := list_ascii_of_string x.
 Definition crlf : str := [c_cr; c_lf].
